@@ -436,6 +436,13 @@ func init() {
 		return nil
 	}, "sort.Sort", "sort.Stable")
 
+	// ---- logging has an empty body (formatting is not the subject of any check)
+	const dl = "github.com/versity/versitygw/s3api/debuglogger."
+	reg(retZero, dl+"Logf", dl+"LogFiberRequestDetails", dl+"LogFiberResponseDetails", dl+"PrintInsideHorizontalBorders", dl+"InternalError", dl+"Infof", dl+"DebugLogf")
+	// ---- XML error documents are opaque
+	reg(func(p *Path, fr *frame, fn *ssa.Function, args []Value) Value {
+		return Slice{A: []Value{&Handle{Kind: "opaque:s3-error-document", P: args[0]}}}
+	}, "github.com/versity/versitygw/s3err.GetAPIErrorResponse")
 	// ---- unsafe builtins appear as functions in a few stdlib spots
 	reg(nop, "os.runtime_beforeExit")
 }
